@@ -354,6 +354,19 @@ Fixpoint skip (fuel : nat) (p : proto) (ty : Z) (b : bytes) {struct fuel} : tres
   else TErr EOther
   end.
 
+(* decode.go skipItems / skipEntries: the items of a list or set (the entries of a map) whose header has been read;
+   used when the item type differs from the declared type in non-strict mode *)
+Definition skip_items (f : nat) (p : proto) (et : Z) (n : Z) (r : bytes) : tres bytes :=
+  (fix go (k : nat) (cnt : Z) (r : bytes) : tres bytes :=
+     if cnt <=? 0 then TOk r else
+     match k with O => TOutOfFuel | S k' => tlet r <- dont_expect_eof (skip f p et r) in go k' (cnt - 1) r end) (S (length r)) n r.
+Definition skip_entries (f : nat) (p : proto) (kt vt : Z) (n : Z) (r : bytes) : tres bytes :=
+  (fix go (k : nat) (cnt : Z) (r : bytes) : tres bytes :=
+     if cnt <=? 0 then TOk r else
+     match k with O => TOutOfFuel | S k' =>
+       tlet r <- dont_expect_eof (skip f p kt r) in
+       tlet r <- dont_expect_eof (skip f p vt r) in go k' (cnt - 1) r end) (S (length r)) n r.
+
 (* ---------- decoders ---------- *)
 Fixpoint set_nth (vs : list tval) (i : nat) (v : tval) : list tval :=
   match vs, i with [], _ => [] | _ :: r, O => v :: r | x :: r, S i' => x :: set_nth r i' v end.
@@ -389,7 +402,7 @@ Fixpoint dec (fuel : nat) (p : proto) (t : tty) (flags : Z) (old : tval) (b : by
       tlet (h, r) <- r_list p b in
       let '(n, lt) := h in
       let lt := if lt =? c_TRUE then c_BOOL else lt in
-      if negb (type_of et =? lt) then (if has_flag flags f_strict then TErr EMismatch else TOk (old, r)) else
+      if negb (type_of et =? lt) then (if has_flag flags f_strict then TErr EMismatch else tlet r <- skip_items f p lt n r in TOk (old, r)) else
       if n <? 0 then TErr EOther else
       (fix go (k : nat) (cnt : Z) (acc : list tval) (r : bytes) : tres (tval * bytes) :=
          if cnt <=? 0 then TOk (TvList true (rev acc), r) else
@@ -403,7 +416,7 @@ Fixpoint dec (fuel : nat) (p : proto) (t : tty) (flags : Z) (old : tval) (b : by
       let lt := if lt =? c_TRUE then c_BOOL else lt in
       if n <? 0 then TErr EOther else
       if n =? 0 then TOk (TvSet true [], r) else
-      if negb (type_of kt =? lt) then (if has_flag flags f_strict then TErr EMismatch else TOk (TvSet true [], r)) else
+      if negb (type_of kt =? lt) then (if has_flag flags f_strict then TErr EMismatch else tlet r <- skip_items f p lt n r in TOk (TvSet true [], r)) else
       (fix go (k : nat) (cnt : Z) (acc : list tval) (r : bytes) : tres (tval * bytes) :=
          if cnt <=? 0 then TOk (TvSet true acc, r) else
          match k with
@@ -415,8 +428,8 @@ Fixpoint dec (fuel : nat) (p : proto) (t : tty) (flags : Z) (old : tval) (b : by
       let '(n, mk, mv) := h in
       if n <? 0 then TErr EOther else
       if n =? 0 then TOk (TvMap true [], r) else
-      if negb (type_of kt =? mk) then (if has_flag flags f_strict then TErr EMismatch else TOk (TvMap true [], r)) else
-      if negb (type_of vt =? mv) then (if has_flag flags f_strict then TErr EMismatch else TOk (TvMap true [], r)) else
+      if negb (type_of kt =? mk) then (if has_flag flags f_strict then TErr EMismatch else tlet r <- skip_entries f p mk mv n r in TOk (TvMap true [], r)) else
+      if negb (type_of vt =? mv) then (if has_flag flags f_strict then TErr EMismatch else tlet r <- skip_entries f p mk mv n r in TOk (TvMap true [], r)) else
       (fix go (k : nat) (cnt : Z) (acc : list (tval * tval)) (r : bytes) : tres (tval * bytes) :=
          if cnt <=? 0 then TOk (TvMap true acc, r) else
          match k with
@@ -463,7 +476,11 @@ Fixpoint dec (fuel : nat) (p : proto) (t : tty) (flags : Z) (old : tval) (b : by
                    let seen := slot :: seen in
                    let fexp := type_of (fld_ty fd) in
                    if negb (fty =? fexp) && negb ((fty =? c_TRUE) && (fexp =? c_BOOL)) then
-                     (if has_flag flags f_strict then TErr EMismatch else loop k' r id (nfields + 1) vs seen)
+                     (if has_flag flags f_strict then TErr EMismatch else
+                        tlet r <- dont_expect_eof
+                                    (if ((fty =? c_TRUE) || (fty =? c_BOOL)) && (match p with PCompact => true | PBinary => false end)
+                                     then TOk r else skip f p fty r) in
+                        loop k' r id (nfields + 1) vs seen)
                    else
                    let oldf := nth i vs (zero_of (fld_ty fd)) in
                    if (match p with PCompact => true | PBinary => false end) && ((fty =? c_TRUE) || (fty =? c_BOOL)) then
